@@ -418,6 +418,10 @@ impl Installation {
             index_manager.save_all()?;
         }
 
+        // What earlier reads cached may have come from a damaged copy that
+        // this write has just replaced
+        self.cache.read().await.clear();
+
         info!(
             "Wrote file to archive {} at offset {} (content key: {}, encoding key: {})",
             archive_id,
